@@ -131,6 +131,24 @@ func c18PropBase(race bool) *pProp {
 				reqs = append(reqs, &parsersim.Request{ID: fmt.Sprintf("c18-%s-s%d", gp.Name, k), Kind: "c18", Parser: gp.Name,
 					Clients: clients, Sched: sc, Pool: pool, Seed: r.u64(), StepCap: 60000})
 			}
+			if r.chance(1, 2) {
+				// a crowd: 66-125 clients with one small call each, switched so often
+				// that nearly all of them are inside Parse at the same time (a server
+				// under load; "any number of goroutines")
+				nc := 66 + r.intn(60)
+				var clients [][]parsersim.Call
+				for c := 0; c < nc; c++ {
+					o := drawOpts(r, gp, 25, 8)
+					o.Debug = false
+					plan := drawPlan(r, gp.HasState)
+					plan.MaxEvents = 200
+					clients = append(clients, []parsersim.Call{{Input: inputs[r.intn(len(inputs))], Opts: o, Plan: plan}})
+				}
+				sc := simrt.SchedConfig{Strategy: simrt.StratRandom, SwitchOneIn: []int{2, 3, 6}[r.intn(3)]}
+				pool := simsync.PoolConfig{NewPct: r.intn(20), RandomPct: r.intn(50), FIFOPct: r.intn(30), DropPct: r.intn(10)}
+				reqs = append(reqs, &parsersim.Request{ID: fmt.Sprintf("c18-%s-crowd", gp.Name), Kind: "c18", Parser: gp.Name,
+					Clients: clients, Sched: sc, Pool: pool, Seed: r.u64(), StepCap: 60000})
+			}
 			return reqs
 		},
 		post:    c18FreshSolo,
